@@ -255,6 +255,24 @@ def extract(repo: Path) -> Tuple[Dict[str, Any], List[str]]:
                 wrapper_fwd.append(fname + ":" + ",".join(f"{k}={v}" for k, v in sorted(fwd.items())))
     out["pushForward"] = push_fwd
     out["wrapperForward"] = wrapper_fwd
+    if t is not None:
+        # where the options live: a per-thread object
+        cls = next((n for n in t.body if isinstance(n, ast.ClassDef) and n.name == "ExtractOptions"), None)
+        if cls is None:
+            problems.append("_extract.ExtractOptions not found")
+        else:
+            out["optionsBases"] = [ast.unparse(b) for b in cls.bases]
+            inst = [ast.unparse(n.value) for n in t.body if isinstance(n, ast.Assign) and getattr(n.targets[0], "id", None) == "current_options"]
+            out["optionsInstance"] = inst[0] if inst else "?"
+        # which object becomes Frame.origin
+        bo = _func(t, "better_origin")
+        if bo is None:
+            problems.append("_extract.better_origin not found")
+        else:
+            tl = [ast.unparse(n.value) for n in ast.walk(bo) if isinstance(n, ast.Assign) and getattr(n.targets[0], "id", None) == "typelist"]
+            conds = [ast.unparse(n.test) for n in ast.walk(bo) if isinstance(n, ast.If)]
+            out["betterOriginTypes"] = tl[0] if tl else "?"
+            out["betterOriginCond"] = conds[0] if conds else "?"
 
     # ---- whole package: census of state that outlives a call (C06) ----
     census: List[str] = []
